@@ -178,6 +178,7 @@ class SimRadio:
         self.ack_inflight = {}
         self.irq_waiters = []
         self.rx_waiters = []
+        self._amap = None  # cache: address prefix -> lowest enabled pipe
         self.irq_log = None
         self._irq = True
         self.carrier = False
@@ -370,6 +371,7 @@ class SimRadio:
             self._san("reg_length", "W_REGISTER 0x%02X without data" % reg)
             return
         if reg in self.addr:
+            self._amap = None
             width = len(self.addr[reg])
             if len(data) > width:
                 self._san("reg_length", "%d bytes written to %d-byte register 0x%02X"
@@ -416,6 +418,8 @@ class SimRadio:
             self.cfg_writes.append((self.world.now, old, v, self.ce))
         if reg == RF_CH:
             self.plos_cnt = 0
+        if reg == EN_RXADDR or reg == SETUP_AW:
+            self._amap = None
         self.r[reg] = v
         if reg == CONFIG:
             self._irq_update()
@@ -683,12 +687,14 @@ class SimRadio:
         if pkt.rate != self.rate() or pkt.aw != self.aw() or pkt.crclen != self.crclen():
             return "cfg_mismatch"
         aw = pkt.aw
-        pipe = None
-        en = self.r[EN_RXADDR]
-        for p in range(6):
-            if en & (1 << p) and self.pipe_addr(p)[:aw] == pkt.addr:
-                pipe = p
-                break
+        amap = self._amap
+        if amap is None:
+            amap = self._amap = {}
+            en = self.r[EN_RXADDR]
+            for p in range(5, -1, -1):
+                if en & (1 << p):
+                    amap[self.pipe_addr(p)[:aw]] = p
+        pipe = amap.get(pkt.addr)
         if pipe is None:
             return None
         if self.air.fault is not None and self.air.fault(pkt, self):
